@@ -81,9 +81,12 @@ def run(ctx):
     esc = [st for st in walk_local(cw.node) if isinstance(st, ast.If) and any(last_attr(c) == 'terminate' and receiver(c) == 'worker' for x in st.body for c in calls_in(x))]
     ok = len(esc) == 1
     cond = norm(esc[0].test) if ok else None
-    want = 'alive and (force is not False or not graceful)'
+    av = [st.targets[0].id for st in walk_local(cw.node) if isinstance(st, ast.Assign) and isinstance(st.targets[0], ast.Name) and isinstance(st.value, ast.UnaryOp)
+          and isinstance(st.value.operand, ast.Call) and last_attr(st.value.operand) == 'wait']
+    AL = av[-1] if av else 'alive'
+    want = f'{AL} and (force is not False or not graceful)'
     ctx.check('R1', 'cleanup_worker escalates to terminate() when the worker is still alive and forcing is not disabled', ok and cond == want, 'Pool._close.<cleanup_worker>',
-              f'escalation-condition:{cond}', f'the escalation to terminate() is conditional on `{cond}` instead of `{want}`: '
+              'escalation-condition:' + str(cond).replace(AL, 'ALIVE'), f'the escalation to terminate() is conditional on `{cond}` instead of `{want}`: '
               'a stuck worker outlives the pool (force=None must not disable the forced termination)', where=loc(cw, esc[0]) if ok else loc(cw, cw.node))
     if ok:
         t = [c for x in esc[0].body for c in calls_in(x) if last_attr(c) == 'terminate'][0]
@@ -91,7 +94,7 @@ def run(ctx):
         ctx.check('R1', 'cleanup_worker: terminate is given the pool timeout', kw.get('timeout') == 'timeout', 'Pool._close.<cleanup_worker>', 'escalation-timeout',
                   'terminate() is not given the close timeout', where=loc(cw, t))
         # alive is computed from wait()
-        a = [st for st in walk_local(cw.node) if isinstance(st, ast.Assign) and is_name(st.targets[0], 'alive') and isinstance(st.value, ast.UnaryOp)]
+        a = [st for st in walk_local(cw.node) if isinstance(st, ast.Assign) and is_name(st.targets[0], AL) and isinstance(st.value, ast.UnaryOp)]
         ok2 = bool(a) and isinstance(a[-1].value.operand, ast.Call) and last_attr(a[-1].value.operand) == 'wait' and any(k.arg == 'timeout' for k in a[-1].value.operand.keywords)
         ctx.check('R1', 'cleanup_worker: `alive` is the negated result of wait(timeout=...)', ok2, 'Pool._close.<cleanup_worker>', 'alive-not-from-wait',
                   '`alive` is not computed from a bounded wait()', where=loc(cw, cw.node))
